@@ -148,7 +148,7 @@ pub fn run(ctx: &mut Ctx) {
                 let m = model(vec![Sc, Sc, Sc], kind, &[], lossy, max_crashes, 0);
                 explore(ctx, &label, &m, 3);
                 let label = format!("probe:{}:lossy={}:k={}", kind, lossy, max_crashes);
-                let m = model(vec![P::<u8>::new(false), P::<u8>::new(true), P::<u8>::new(false)], kind, &[(0, 1, 21), (1, 0, 22), (2, 0, 23), (0, 2, 24)], lossy, max_crashes, 0);
+                let m = model(vec![P::<u8>::new(0), P::<u8>::new(1), P::<u8>::new(0)], kind, &[(0, 1, 21), (1, 0, 22), (2, 0, 23), (0, 2, 24)], lossy, max_crashes, 0);
                 explore(ctx, &label, &m, 3);
             }
         }
